@@ -198,7 +198,7 @@ MANIFEST = dict(
     'optimality then follows from KKT (trusted).',
     note='floats modelled as exact reals; N bounded; KKT theorem trusted; '
     'np.zeros/float() facade'
-    ' Concrete data-representation / scale / boundary probes of the real'
+    '. Concrete data-representation / scale / boundary probes of the real'
     ' code (dtype, container and memory-layout variants, argument'
     ' immutability, magnitudes) accompany the symbolic runs; they are'
     ' differential runs, not solver verdicts.',
